@@ -31,7 +31,7 @@ GAMMA = {
     "rparam": ":param a: ", "rtype": ":type a: ", "rreturn": ":return: ", "rrtype": ":rtype: ",
     "gargs": "Args:\n", "greturns": "Returns:\n", "graises": "Raises:\n", "gitem": "  a (int): b",
     "nparams": "Parameters\n", "nreturns": "Returns\n", "dashes": "----------\n", "nitem": "a : int",
-    "defaults": "Defaults to 5",
+    "defaults": "Defaults to 5", "TAB": "\t", "NBSP": "\u00a0", "or": " or ", "of": " of ",
 }
 EXTRA = ["Defaults to ", "``` ```", "```None```", "Union[int,", " or ", " of ", "number", "'", '"', "\\", ",",
          "  \n", "\t", "(", ")", "Raises\n", "Usage:\n", ">>> f(1)\n", ":cvar a: ", "a (int, optional): b\n",
@@ -100,6 +100,11 @@ def entry_points(d, indent, workdir, with_doctrans):
     eps.append(("parse", do_parse()))
     eps.append(("parse(original_whitespace)", do_parse(parse_original_whitespace=True)))
     eps.append(("parse(infer_type)", do_parse(infer_type=True, emit_default_doc=False)))
+    import cdd.docstring.utils.parse_utils as pu
+
+    eps.append(("adhoc_typ", lambda: pu.parse_adhoc_doc_for_typ(d, "a", False)))
+    eps.append(("adhoc_typ(none)", lambda: pu.parse_adhoc_doc_for_typ("the a" + d + " thing", "a", True)))
+    eps.append(("parse(no word wrap)", do_parse(word_wrap=False)))
     eps.append(("split", lambda: du.parse_docstring_into_header_args_footer(textwrap.dedent(d), d)))
     eps.append(("split(same)", lambda: du.parse_docstring_into_header_args_footer(d, d)))
     eps.append(("ensure_whence", lambda: du.ensure_doc_args_whence_original(textwrap.dedent(d), d)))
@@ -218,7 +223,7 @@ def _check(run, replay, work):
     run.tlc("Loops", "MC_Loops_chars.cfg", constants={"MaxLen": 4 if quick else 5}, coverage=quick, timeout=3000)
     r = run.tlc("Loops", "MC_Loops_tokens.cfg", shards=NCPU, constants={"MaxTok": 2 if quick else 3}, timeout=3000)
     toks = [d["toks"] for d in r.printed]
-    expected = sum(20 ** k for k in range((2 if quick else 3) + 1))
+    expected = sum(24 ** k for k in range((2 if quick else 3) + 1))
     if len(toks) != expected:
         raise MachineryError("Loops token dump produced {} sequences, expected {}".format(len(toks), expected))
     # the property formulation must reject the pinned emitter loop
